@@ -601,6 +601,7 @@ type DialOutcome struct {
 	Deaf    bool           // a parked invocation ignores the end of its context (a Dialer need not honour it in time)
 	Err     error          // the error of a failing outcome (nil: a refused connection)
 	Connack *ConnackPolicy // nil = world default
+	WFaults []WFault       // write faults armed on the connection this outcome makes
 }
 
 // ScriptDial appends outcomes for the next Dialer invocations.
@@ -684,6 +685,9 @@ func (w *World) dialer(ctx context.Context) (net.Conn, error) {
 	c := w.newConn()
 	if o.Connack != nil {
 		c.Connack = *o.Connack
+	}
+	for _, f := range o.WFaults {
+		c.ArmWriteLocked(f)
 	}
 	if w.NextConnOpts != nil {
 		w.NextConnOpts(c)
